@@ -390,10 +390,14 @@ def run_links(ctx, n):
         done += 1
         replay = {"script": script, "sections": [(a.decode(), b.decode()) for a, b in names], "wild_rc": res["wild"][0], "wild_stderr": res["wild"][2],
                   "how": "as a.s/b.s; ld|wild --gc-sections -T s.ld a.o b.o; compare output section containing each tag"}
+        # wild applies the input-section patterns to the .symtab/.strtab/.shstrtab it generates itself (recorded defect): the link
+        # then fails (`Invalid ELF section index`, `Expected zero address for section ...`) or puts those tables into the matching
+        # output section, displacing the input sections that belong there
+        hits_tables = any(libc_fnmatch(pat, x) for _, pat, _ in rules for x in (b".symtab", b".strtab", b".shstrtab"))
         if res["wild"][0] != 0 or res["wild"][1] is None:
             ctx.cov["impl_oracle_failures"] += 1
             cls = "panic" if "panicked" in res["wild"][2] else "error"
-            if "Invalid ELF section index" in res["wild"][2] and any(libc_fnmatch(pat, x) for _, pat, _ in rules for x in (b".symtab", b".strtab", b".shstrtab")):
+            if cls == "error" and hits_tables and ("Invalid ELF section index" in res["wild"][2] or "Expected zero address for section" in res["wild"][2]):
                 ctx.count("known-class", K_MATCH_SYMTAB)
                 ctx.violation(K_MATCH_SYMTAB, "a section pattern that also matches .symtab/.strtab/.shstrtab (e.g. `*`) makes the link fail with "
                               "`Invalid ELF section index`; GNU ld accepts it", replay)
@@ -412,6 +416,14 @@ def run_links(ctx, n):
             ctx.violation(K_KEEP_LATER, "GNU ld keeps a section matched by ANY KEEP description, wild only honours KEEP on the first matching "
                           f"description: {list(later.values())[:2]}", rp)
             diff = {t: v for t, v in diff.items() if t not in later}
+        if diff and hits_tables and all(v[2] in (None, "?") for v in diff.values()):
+            ctx.cov["impl_oracle_failures"] += 1
+            ctx.count("known-class", K_MATCH_SYMTAB)
+            rp = dict(replay)
+            rp["differences (section, gnu output section, wild output section)"] = diff
+            ctx.violation(K_MATCH_SYMTAB, "a section pattern that also matches .symtab/.strtab/.shstrtab puts those tables into the output section; the input "
+                          f"sections that belong there are lost: {list(diff.values())[:2]}", rp)
+            diff = {}
         if diff:
             ctx.cov["impl_oracle_failures"] += 1
             replay["differences (section, gnu output section, wild output section)"] = diff
@@ -580,6 +592,11 @@ def run(ctx):
         ctx.count("oracle", "lookup-hit" if exp != "none" else "lookup-miss")
         if out != exp_alt:
             spec.load([pr[:2] for pr in involved if ascii_ok(pr[0]) and ascii_ok(pr[1])])
+            if out.startswith("err") and any(spec.get(p, s)[0] is None for p, s, f in involved if ascii_ok(p) and ascii_ok(s)):
+                # a rule that was not needed for the expected answer has a pattern outside the domain of the fnmatch spec
+                # (collating symbols / equivalence classes `[.` `[=`): the oracle has no opinion on whether it is constructible
+                ctx.count("oracle", "lookup-outside-domain")
+                continue
             classes = [c for c in (classify(spec, p, s, f) for p, s, f in involved if ascii_ok(p) and ascii_ok(s)) if c]
             replay = {"request": line, "rules": [(c, k, p.decode("latin1"), None if f is None else f.decode("latin1")) for c, k, p, f in rules],
                       "name": name.decode("latin1"), "file": None if file is None else file.decode("latin1"),
